@@ -286,8 +286,9 @@ func rsLog() golog.Logger { return golog.LoggerFor("zx") }
 
 // C03.W — a flush rewrites every row of the previous file no matter how it is performed: plain,
 // sorted (external merge sort, when a memory cap is configured), with or without the raw
-// pass-through of untouched rows (every 10th flush disables it): the four ways of flushing the
-// same file + memstore leave the same rows on disk (DESIGN §5 C03.W).
+// pass-through of untouched rows (every 10th flush disables it), sorted in memory or merged
+// from spill files read back in short pieces: every way of flushing the same file + memstore
+// leaves the same rows on disk (DESIGN §5 C03.W).
 //
 //zx:harness prop=C03 id=C03.W tier=quick mode=real env=fs
 func zxC03FlushModes() {
@@ -302,10 +303,17 @@ func zxC03FlushModes() {
 	// second generation: x is touched again, y is not (eligible for the raw pass-through), z is new
 	zxInsert(rs, rs.memStore, "x", zxNow, map[string]float64{"a": vb}, 0, 30)
 	zxInsert(rs, rs.memStore, "z", zxNow, map[string]float64{"a": 9}, 0, 40)
-	shouldSort := vrtShape("sorted", 2) == 1
+	sortMode := vrtShape("sorted", 3)
+	shouldSort := sortMode > 0
 	disallowRaw := vrtShape("disallowRaw", 2) == 1
-	if shouldSort {
+	if sortMode == 1 {
 		t.db.opts.MaxMemoryRatio = 0.5
+	}
+	if sortMode == 2 {
+		// no memory to sort in: every row is spilled to its own file and the final merge reads the
+		// spill files back through the row store's chunk reader; reads come back in short pieces
+		t.db.opts.MaxMemoryRatio = 1e-18
+		zxShortRead = 5
 	}
 	out, _ := zxTempFile("", "flushmodes")
 	_, rowCount, err := rs.fileStore.flush(out, fields, nil, rs.memStore.offsetsBySource, rs.memStore, shouldSort, disallowRaw)
@@ -326,6 +334,9 @@ func zxC03FlushModes() {
 	mode := "plain"
 	if shouldSort {
 		mode = "sorted"
+	}
+	if sortMode == 2 {
+		mode = "sorted through spill files"
 	}
 	if disallowRaw {
 		mode += ", raw pass-through disabled"
